@@ -43,6 +43,10 @@ def run_one(m):
                     status, detail = "FALSE-ALARM", "%s: %s" % (pid, out[-600:])
             else:
                 exp = m["expect"].get(pid) if isinstance(m["expect"], dict) else m["expect"]
+                if exp is None:
+                    if rc != 0:
+                        status, detail = "FALSE-ALARM", "%s must stay silent: %s" % (pid, out[-500:])
+                    continue
                 hit = rc == 1 and any(exp in l for l in out.splitlines() if l.strip().startswith("violated:"))
                 if not hit:
                     status, detail = "MISSED", "%s: rc=%d expected key containing %r; got: %s" % (pid, rc, exp, out[-600:])
